@@ -26,6 +26,7 @@ type tbl struct {
 	dynamic   func(ip *absint.Interp, fn absint.Value, args []absint.Value) (absint.Value, bool)
 	errN      int
 	syncMaps  map[absint.Value]*syncMapModel // sync.Map objects by receiver identity
+	fieldMaps map[string]*syncMapModel       // ... and those held by value in a field, by owner and field name
 }
 
 type syncMapModel struct {
@@ -37,6 +38,19 @@ type syncMapModel struct {
 func (t *tbl) syncMap(recv absint.Value) *syncMapModel {
 	if t.syncMaps == nil {
 		t.syncMaps = map[absint.Value]*syncMapModel{}
+	}
+	if fr, ok := recv.(*absint.FieldRef); ok {
+		// a map held by value in a struct field: the address is computed anew at every use, the map is the same
+		if t.fieldMaps == nil {
+			t.fieldMaps = map[string]*syncMapModel{}
+		}
+		k := fmt.Sprintf("%p.%s", fr.Obj, fr.Name)
+		m := t.fieldMaps[k]
+		if m == nil {
+			m = &syncMapModel{k: map[string]absint.Value{}, v: map[string]absint.Value{}}
+			t.fieldMaps[k] = m
+		}
+		return m
 	}
 	m := t.syncMaps[recv]
 	if m == nil {
@@ -258,6 +272,10 @@ func (t *tbl) TypeTest(ip *absint.Interp, v absint.Value, T types.Type) (bool, b
 		if ok, known := t.typeTest(v, T); known {
 			return ok, known
 		}
+	}
+	// a slice remembers the type it was boxed with
+	if l, isL := v.(*absint.List); isL && l.GoType != nil && !types.IsInterface(T) {
+		return types.Identical(l.GoType, T), true
 	}
 	// literals carry their basic type
 	if b, isB := T.Underlying().(*types.Basic); isB {
